@@ -97,6 +97,37 @@ func runVarsCase(c *Ctx, e *ex, expr string) {
 				note = "after switching automatic variables on and setting the same text again, the default collection holds " + m
 			}
 		}
+		if len(want) > 0 && note == "" {
+			// discovery happens when the expression is set: an entry the application removes afterwards stays removed,
+			// and evaluating over the default collection reports it as missing
+			h4 := calculator.NewExpressionCalculator()
+			h4.SetExpression(expr)
+			h4.DefaultVariables().RemoveByName(want[0])
+			r, err := h4.Evaluate()
+			if h4.DefaultVariables().FindByName(want[0]) != nil {
+				note = "after RemoveByName(" + want[0] + ") on the default collection, Evaluate() put the entry back"
+			} else if err == nil {
+				note = "after RemoveByName(" + want[0] + ") on the default collection, Evaluate() succeeded (" + outcome(r, err) + ") although the variable does not exist"
+			}
+		}
+		if countCI(want) >= 2 && note == "" {
+			// the automatically created entries are separate cells: assigning one in place leaves the others empty
+			h5 := calculator.NewExpressionCalculator()
+			h5.SetExpression(expr)
+			vs := h5.DefaultVariables().GetAll()
+			if len(vs) >= 2 {
+				vs[0].Value().SetAsInteger(5)
+				for _, o := range vs[1:] {
+					if o.Value().Type() != variants.Null {
+						note = fmt.Sprintf("assigning the automatic variable %q in place changed the automatic variable %q", vs[0].Name(), o.Name())
+						break
+					}
+				}
+				if v := variables.NewVariable("fresh", nil); v.Value().Type() != variants.Null && note == "" {
+					note = "a variable created without a value is not empty after another variable was assigned in place"
+				}
+			}
+		}
 		var names []string
 		for _, v := range all {
 			names = append(names, strRunes(v.Name()))
